@@ -82,6 +82,27 @@ func flagProblems(a *spec.Attr, sa tfsdk.Attribute, p string, out *[]problem) {
 }
 
 func (x *Ctx) flagsWalk(ms *spec.Msg, attrs map[string]tfsdk.Attribute, path string, out *[]problem) {
+	// attributes that stem neither from a field nor from the injected_fields entry of this path
+	expected := map[string]bool{}
+	for _, a := range ms.Live() {
+		expected[a.Attr] = true
+	}
+	for _, i := range ms.Injected {
+		expected[i.Name] = true
+	}
+	if ms.Empty {
+		expected["active"] = true
+	}
+	var extra []string
+	for n := range attrs {
+		if !expected[n] {
+			extra = append(extra, n)
+		}
+	}
+	sort.Strings(extra)
+	for _, n := range extra {
+		*out = append(*out, problem{fp: "injected/unconfigured-attribute", path: path + "." + n, msg: "attribute stems neither from a field nor from an injected_fields entry of this path"})
+	}
 	for _, a := range ms.Live() {
 		sa, ok := attrs[a.Attr]
 		if !ok {
